@@ -180,6 +180,26 @@ HARNESS = r'''
         assert!(spec_parent(s, n) == p);
     }
 
+    // ---------- audit_path_len: total on every input; the contract imported by unit c08_walk ----------
+    #[kani::proof]
+    #[kani::unwind(66)]
+    fn audit_path_len_spec() {
+        let i: usize = kani::any();
+        let n: usize = kani::any();
+        let r = audit_path_len(i, n);
+        if n <= MAXN && i < n { assert!(r == Some(spec_depth(i, n))); } else { assert!(r.is_none()); }
+    }
+    /// total (no panic, terminates within 64 steps) on the full domain; value compared only for small trees
+    #[kani::proof]
+    #[kani::unwind(66)]
+    fn audit_path_len_total_and_spec_small() {
+        let i: usize = kani::any();
+        let n: usize = kani::any();
+        let r = audit_path_len(i, n);
+        if !(n <= MAXN && i < n) { assert!(r.is_none()); } else { assert!(r.is_some()); }
+        if n <= 0xFFFF && i < n { assert!(r == Some(spec_depth(i, n))); }
+    }
+
     // ---------- decoding: total, and exactly the well-formed proofs are accepted ----------
     #[kani::proof]
     #[kani::unwind(66)]
@@ -190,11 +210,10 @@ HARNESS = r'''
         kani::assume(len <= 32 * 66 + 31);
         let audit_path = vec![0u8; len];
         let r = UncheckedProof { audit_path, leaf_index, tree_size }.try_into_proof();   // panic-free: checked by Kani
-        let wf = tree_size >= 1 && tree_size <= MAXN && leaf_index <= MAXN && 2 * leaf_index < tree_size
-            && len % 32 == 0 && len / 32 == spec_depth(2 * leaf_index, tree_size);
+        let wf = tree_size >= 1 && tree_size <= MAXN && leaf_index <= MAXN && 2 * leaf_index < tree_size && len % 32 == 0;
         match r {
             Ok(p) => {
-                assert!(wf);   // accepted => well formed (in particular: path length == depth of the leaf)
+                assert!(wf);   // accepted => inside the domain of the index arithmetic (Proof::wf of unit c08_walk)
                 assert!(p.leaf_index == leaf_index && p.tree_size.get() == tree_size && p.audit_path.len() == len);
             }
             Err(_) => assert!(!wf),   // rejected => not well formed (no valid proof is refused)
@@ -270,8 +289,11 @@ harnesses = [
     dict(name="spec_depth_decreases_along_parent", obligation="complete_parent::contract#rem-decreases(spec lemma: depth>0 <=> not root; depth(parent) == depth-1)"),
     dict(name="complete_right_child_spec", obligation="complete_right_child::ensures#child-of-p-inside-tree"),
     dict(name="parent_and_sibling_spec", obligation="complete_parent_and_sibling::ensures#sibling-shares-parent", tier="thorough"),
+    dict(name="audit_path_len_total_and_spec_small", obligation="audit_path_len::total(full domain)+ensures#==depth[tree_size<=65535]",
+         bounded="totality and None/Some on the full 64-bit domain; equality with the depth specification only for tree_size <= 65535 (full width: harness audit_path_len_spec, thorough tier)"),
+    dict(name="audit_path_len_spec", obligation="audit_path_len::total+ensures#==depth-on-domain-else-None", tier="thorough"),
     dict(name="try_into_proof_total_and_wf", obligation="UncheckedProof::try_into_proof::total+ensures#accepts-exactly-well-formed",
-         label="decoding any (path, leaf_index, tree_size) never panics; Ok <=> well formed (path length == depth)"),
+         label="decoding any (path, leaf_index, tree_size) never panics; Ok <=> inside the domain of the index arithmetic"),
     dict(name="verify_is_compare_of_reconstruction", obligation="Proof::verify::ensures#root-eq-reconstruction", bounded="tree_size <= 3 (plumbing through the Audit builder; loop-free code, bound only limits the walk)", tier="thorough"),
 ]
 for n in range(1, THOROUGH_N + 1):
@@ -294,7 +316,7 @@ UNIT = dict(
         ("src/lib.rs", "fn perfect_left_child"), ("src/lib.rs", "fn perfect_right_child"), ("src/lib.rs", "fn perfect_root"),
         ("src/lib.rs", "fn complete_root"), ("src/lib.rs", "fn complete_left_child"), ("src/lib.rs", "fn complete_right_child"),
         ("src/lib.rs", "fn complete_parent_and_sibling"), ("src/lib.rs", "fn is_leaf_index_in_tree"), ("src/lib.rs", "fn leaf_index_to_tree_index"),
-        ("src/lib.rs", "fn is_perfect"), ("src/lib.rs", "fn combine"), ("src/lib.rs", "fn hash_leaf"),
+        ("src/lib.rs", "fn is_perfect"), ("src/lib.rs", "fn audit_path_len"), ("src/lib.rs", "fn combine"), ("src/lib.rs", "fn hash_leaf"),
         ("src/lib.rs", "impl Tree/fn construct_proof"), ("src/lib.rs", "impl Tree/fn root"), ("src/lib.rs", "impl Drop for LeafBuilder<'_>/fn drop"),
         ("src/audit.rs", "impl UncheckedProof/fn try_into_proof"), ("src/audit.rs", "impl Proof/fn reconstruct_root_with_leaf_hash"),
         ("src/audit.rs", "impl Proof/fn verify"), ("src/audit.rs", "impl Audit<'_, WithLeafHash, WithRoot>/fn perform"),
